@@ -80,7 +80,7 @@ theorem rget_perm {l l' : Objects} (hp : l.Perm l') (nd : (l.map (·.1)).Nodup) 
 
 theorem sortObjects_rget (os : Objects) (nd : (os.map (·.1)).Nodup) (k : String) :
     rget k (sortObjects os) = rget k os :=
-  rget_perm (List.mergeSort_perm _ _).symm nd k
+  rget_perm (isort_perm _ _).symm nd k
 
 theorem lookupDef_mem {defs : Defs} {name : String} {s : JS} (h : lookupDef defs name = some s) :
     (name, s) ∈ defs := by
@@ -227,7 +227,7 @@ theorem walkProps_spec {pkg defs w} (hw : WSpec pkg defs w) (req : List String) 
 theorem refsFields_sortFields {r : String × String} {fs : List Field} (h : r ∈ Ty.refsFields (sortFields fs)) :
     r ∈ Ty.refsFields fs := by
   obtain ⟨f, hf, hr⟩ := mem_refsFields.mp h
-  exact mem_refsFields.mpr ⟨f, (List.mergeSort_perm _ _).mem_iff.mp hf, hr⟩
+  exact mem_refsFields.mpr ⟨f, (isort_perm _ _).mem_iff.mp hf, hr⟩
 
 theorem walkObject_spec {pkg defs w} (hw : WSpec pkg defs w) (a : JAttrs) (props : List (String × JS)) (addl : JAddl)
     (st : St) (T : Ty) (st' : St) (h : walkObject w a props addl st = .ok (T, st')) (hg : Good pkg defs st) :
